@@ -69,6 +69,8 @@ LAYOUTS = [
     ([0.5j, 1.0, 3.0 + 1j, 4.5], [0, 0, 1, 1], (0, 1), False),
     ([0.0, 1.0, 0.0, 2.0], [0, 0, 0, 0], (), True),                 # degenerate level on non-adjacent states, full diagonalization
     ([0.0, 1.0, 0.0, 3.0, 4.0], [0, 0, 0, 1, 1], (0,), True),
+    ([1.0, 2.5, 0.0, 0.0], [0, 0, 1, 1], (), True),                 # identically zero H_0 block that is not the first block
+    ([1.0, 2.5, 4.0, 0.0, 0.0], [0, 0, 0, 1, 1], (), True),
 ]
 NAMES = ("H_tilde", "U", "U_inv")
 
@@ -162,6 +164,13 @@ def section_multi():
     dct = block_diagonalize({(0, 0): tonp(S0), (1, 0): tonp(A_), (0, 1): tonp(B_), (1, 1): tonp(C_), (1, 2): tonp(D_)}, subspace_indices=sub)
     mrg = block_diagonalize(S0 + x * A_ + x * B_ + x * x * C_ + x * x ** 2 * D_, symbols=[x], subspace_indices=sub)
     scl = block_diagonalize(S0 + 2 * x * A_ + y * B_ + 2 * x * y * C_ + 2 * x * y ** 2 * D_, symbols=[x, y], subspace_indices=sub)
+    # the order of the user-supplied `symbols` defines the order axes (also when it is not alphabetical)
+    swp = block_diagonalize(S0 + x * A_ + y * B_ + x * y * C_ + x * y ** 2 * D_, symbols=[y, x], subspace_indices=sub)
+    for s in range(3):
+        for o in orders_upto(2, 3):
+            cases += 1
+            if not close(full(idx, swp[s], (o[1], o[0])), full(idx, sym[s], o)):
+                fail("multi", "symbolic input: symbols=[y, x] does not permute the order indices of symbols=[x, y]", output=NAMES[s], order=o)
     for s in range(3):
         for o in orders_upto(2, 3):
             cases += 1
